@@ -348,7 +348,12 @@ def op_div_hist(scn):
         elif kind == "fire":
             ok, _ = call(D.set_fire, {c.name(i) for i in o[1]})
         elif kind == "transfer":
-            ok, _ = call(D.chip_transfer, c.name(o[1]), c.name(o[2]), o[3])
+            if o[3] == 1 and (o[1] + o[2]) % 2 == 0:
+                ok, _ = call(D.chip_transfer, c.name(o[1]), c.name(o[2]))          # default amount
+            elif (o[1] + 2 * o[2]) % 3 == 0:
+                ok, _ = call(D.chip_transfer, vertex_from_name=c.name(o[1]), vertex_to_name=c.name(o[2]), amount=o[3])
+            else:
+                ok, _ = call(D.chip_transfer, c.name(o[1]), c.name(o[2]), o[3])
         elif kind == "cfg_lend":
             ok, _ = call(cfg.lending_move, c.name(o[1])) if cfg else (False, None)
         elif kind == "cfg_borrow":
